@@ -227,6 +227,10 @@ func JWTSecurity(name string, fn ...func()) *expr.SchemeExpr {
 //	    })
 //	})
 func Security(args ...any) {
+	if len(args) == 0 {
+		eval.TooFewArgError()
+		return
+	}
 	var dsl func()
 	if d, ok := args[len(args)-1].(func()); ok {
 		args = args[:len(args)-1]
